@@ -51,7 +51,7 @@ pub fn worker_for(focus: Focus, ctx: &Ctx, mut wc: WorkerCtx) {
             Tier::Quick => (2usize, 3usize, 22usize),
             Tier::Thorough => (3, 4, 20),
         };
-        let first = match tc::explore_session(focus, s, *upto, b_all, 400_000, &mut found) {
+        let first = match tc::explore_session(focus, s, *upto, b_all, 400_000, &mut found, &mut || wc.begin_case(ui as u64, desc.as_bytes())) {
             Ok(st) => st,
             Err(e) => {
                 wc.note("machinery_error", json!(e));
@@ -61,7 +61,7 @@ pub fn worker_for(focus: Focus, ctx: &Ctx, mut wc: WorkerCtx) {
         let mut st = first.clone();
         let mut bound = b_all;
         if first.max_points <= short_points && found.is_empty() {
-            match tc::explore_session(focus, s, *upto, b_short, 400_000, &mut found) {
+            match tc::explore_session(focus, s, *upto, b_short, 400_000, &mut found, &mut || wc.begin_case(ui as u64, desc.as_bytes())) {
                 Ok(s2) => {
                     st = s2;
                     bound = b_short;
@@ -218,7 +218,7 @@ pub fn replay(w: &Value) -> Result<(bool, String), String> {
             let all: Vec<tc::Session> = tc::sessions_c16().into_iter().chain(tc::sessions_c17()).collect();
             let s = all.iter().find(|s| s.name == name).ok_or("unknown session")?;
             let mut found = vec![];
-            let st = tc::explore_session(Focus::C16, s, upto, 1, 100_000, &mut found)?;
+            let st = tc::explore_session(Focus::C16, s, upto, 1, 100_000, &mut found, &mut || {})?;
             Ok((false, format!("unit re-explored: {} executions, {} findings", st.executions, found.len())))
         }
         _ => Err("unknown witness kind".into()),
